@@ -11,6 +11,14 @@ COMMON_ASSUME = [
 
 PROPS = {}
 
+RUNNER_AUX = [dict(pkg="cmd/runner", out="runner")]
+CRASH_ASSUME = COMMON_ASSUME + [
+    "kill -9 model: the file system retains every completed system call (no power loss)",
+    "strace 6.1 reports every traced system call of every thread with its full data (-f -xx -s 1M); calls of different threads are ordered by completion",
+    "the inode model (harness/internal/fsmodel) is validated on every run: its final image must equal the child's real final directory byte for byte, unknown mutating calls abort the run (exit 2)",
+]
+
+
 PROPS["C16"] = dict(
     pkg="props/c16", level="exploration", engine="E-model", design_ref="§4 C16",
     technique="model-based PBT (rapid) against sorted-slice / multiset oracles + exhaustive permutations",
@@ -158,17 +166,19 @@ PROPS["C11"] = dict(
 )
 
 PROPS["C07"] = dict(
-    pkg="props/c07", level="exploration", engine="E-model", design_ref="§4 C07",
-    technique="model-based PBT (rapid): generated Append/AppendSync/Rotate programs vs sequence oracle, incl. replays of the live log (the crash image of that instant)",
-    rule=("case = WAL program of 0..30 Append/AppendSync/Rotate/replay-now steps over nil/empty/1..200-byte records with maximum file size in {1,16,64,1Ki,1Mi,default}, "
-          "writer buffer in {8,64,4Mi} and each compression type; oracle: after Close replay = the appended sequence exactly; a replay of the live log = a prefix containing every "
-          "record up to the last AppendSync/Rotate; non-trivial = >=2 log files, >=3 records and (a live replay or a record larger than the buffer / file limit); distinct = distinct case JSON"),
-    level_text="Sequence-equality oracle over generated append programs and configurations (in-process leg); the system-call crash leg is added by the E-crash engine.",
-    level_note="in-process leg: a live replay observes exactly the bytes already handed to the kernel, i.e. the kill -9 image of that instant",
-    assumptions=COMMON_ASSUME,
-    require_labels=["live-replay", "record-larger-than-buffer-or-limit", "files=>=5"],
-    quick=dict(shards=16, checks=200),
-    thorough=dict(shards=16, checks=5000, timeout_s=3600),
+    pkg="props/c07", level="fault_enumeration", engine="E-crash", design_ref="§4 C07", aux_builds=RUNNER_AUX,
+    technique="model-based PBT (rapid) of Append/AppendSync/Rotate programs vs sequence oracle (in-process, incl. replays of the live log) + the same programs in a child under strace with every system-call boundary replayed",
+    rule=("case = WAL program of 0..30 Append/AppendSync/Rotate/replay-now steps over nil/empty/1..200-byte records with maximum file size in {1,16,64,1Ki,1Mi,default}, writer buffer in {8,64,4096,4Mi}, each compression type. "
+          "In-process leg (24 of 25 cases): after Close replay = the appended sequence exactly; a replay of the live log = a prefix containing every record up to the last AppendSync/Rotate. Crash leg (1 of 25): the program runs "
+          "in the child runner under strace; at EVERY system-call boundary Replay of the image must succeed and deliver a prefix of (returned appends + the in-flight one) containing every record whose AppendSync / Rotate / Close had "
+          "returned, and every returned AppendSync must show a write to the log file followed by an fsync of it between its call and return markers. evaluations count cases (in-process) and boundaries (crash leg); non-trivial = "
+          ">=2 log files, >=3 records and (a live replay or a record larger than the buffer / limit), crash leg: a tree-changing boundary; distinct = case JSON / (case hash, boundary)"),
+    level_text="Crash leg: all kill points of each traced append program are enumerated; in-process leg: sequence-equality oracle over thousands of generated programs and configurations.",
+    level_note="a live replay observes exactly the bytes already handed to the kernel, i.e. the kill -9 image of that instant; crash-leg runs are samples of programs",
+    assumptions=CRASH_ASSUME,
+    require_labels=["live-replay", "record-larger-than-buffer-or-limit", "files=>=5", "leg=crash", "leg=in-process", "sync-append-write-then-fsync-checked", "boundary-inside-rotation-or-multi-write-record"],
+    quick=dict(shards=16, checks=200, shrink_s=5),
+    thorough=dict(shards=16, checks=5000, timeout_s=5400),
 )
 
 PROPS["C15"] = dict(
@@ -248,13 +258,6 @@ PROPS["C19"] = dict(
     quick=dict(shards=16, checks=20, shrink_s=5),
     thorough=dict(shards=16, checks=400, timeout_s=5400),
 )
-
-RUNNER_AUX = [dict(pkg="cmd/runner", out="runner")]
-CRASH_ASSUME = COMMON_ASSUME + [
-    "kill -9 model: the file system retains every completed system call (no power loss)",
-    "strace 6.1 reports every traced system call of every thread with its full data (-f -xx -s 1M); calls of different threads are ordered by completion",
-    "the inode model (harness/internal/fsmodel) is validated on every run: its final image must equal the child's real final directory byte for byte, unknown mutating calls abort the run (exit 2)",
-]
 
 PROPS["C02"] = dict(
     pkg="props/c02", level="fault_enumeration", engine="E-crash", design_ref="§4 C02", aux_builds=RUNNER_AUX,
